@@ -92,7 +92,9 @@ func (n *notifications) DeletedRange(keyStartInclusive, keyEndExclusive string) 
 	// A batch has one slot per key: never let a narrower range with the same start hide a wider one
 	if prev, ok := n.batch.Notifications[keyStartInclusive]; ok &&
 		prev.Type == proto.NotificationType_KEY_RANGE_DELETED && prev.KeyRangeLast != nil &&
-		compare.CompareWithSlash([]byte(*prev.KeyRangeLast), []byte(keyEndExclusive)) >= 0 {
+		(*prev.KeyRangeLast == "" || (keyEndExclusive != "" &&
+			compare.CompareWithSlash([]byte(*prev.KeyRangeLast), []byte(keyEndExclusive)) >= 0)) {
+		// An empty end means no upper bound: that is the widest range
 		return
 	}
 	n.batch.Notifications[keyStartInclusive] = &proto.Notification{
